@@ -31,7 +31,7 @@ POOL = [
     "{}", "{a: 1}", "{_p: 1, b: {c: 2}}", "{a: {c: 1}, b: {a: 2}}", "[[1, {b: 2}], {a: [3]}]", "%{}", "%{1: 2}", '%{"a": 1, [1]: 2}', "%{1: 2, [1]: 3}", "%{1: 2, 3: 4}", "%{[1]: 1, {a: 1}: 2}",
     "(1:3)", "(nil:nil)", "(1:10:0)", "(3:1:-1)", '("a":"c")', "(nil:nil:nil)", "(1:nil:2)",
     "{|x| x}", "{|x, y| x + y}", "m{|x| x}", "{|| 1/0}", "{|x| yield x}",
-    "<{|x| yield x if x < 3; recur(x + 1)}>.new(0)", "[1, 2]._iter",
+    "<{|x| yield x if x < 3; recur(x + 1)}>.new(0)", "[1, 2]._iter", "<{||}>", "<{}>.new", "{||}",
     "Int", "Arr", "Str", "Obj", "BaseObj", "Iter", "Either", "Kernel", "Err", "Comparable",
     'Err.new("m")', "ValueErr", "_", "Either.newVal(1)", 'Either.newErr(Err.new("e"))', "1.try",
     "{|x| x}.bear({})", "[1, 2]._iter.bear({})", "<{|x| yield x}>.bear({})", "<{|x| yield x}>.new(1).bear({})", "(1:3).bear({})", '"ab".bear({})', "nil.bear({})",
@@ -480,7 +480,10 @@ def main(chk):
         kinds[k] = kinds.get(k, 0) + 1
         chk.count((fam, r.get("src"), r.get("recv"), r.get("prop"), tuple(r.get("args") or ()), r.get("kw"), r.get("stdin")),
                   k in ("value", "error", "syntax"))
-        if k == "panic" and re.search(r"makeslice: (len|cap) out of range|output length overflow|out of memory|growslice: len out of range", d.get("panic", "")):
+        if k == "panic" and re.search(r"makeslice: (len|cap) out of range|output length overflow|out of memory|growslice: len out of range", d.get("panic", "")) \
+                and re.search(r"\d{7,}|\*\*|<<", json.dumps([r.get("src"), r.get("args"), r.get("kw"), r.get("recv")])):
+            # (only when the case really asks for something huge — a count of a million or more, a power, a shift: the same message
+            # comes from a NEGATIVE length or capacity, which is a plain crash)
             # Go refuses an allocation of more than 2^47 bytes with a panic instead of trying: the result does not fit in
             # any memory (the property's proviso), exactly as the cases stopped by the heap watchdog
             kinds[k] -= 1
